@@ -453,7 +453,7 @@ Lemma ccheck_if_eq : forall K G ph c ift iff,
   ccheck_stmt N P K G (ASIf ph c ift iff) =
   if ccheck_expr N P K G c then
     match ccheck_block N P K G ift, ccheck_block N P K G iff with
-    | Some G1, Some G2 => Some (cmerge G1 G2)
+    | Some G1, Some G2 => Some (if blk_ret ift then G2 else if blk_ret iff then G1 else cmerge G1 G2)
     | _, _ => None
     end
   else None.
@@ -649,11 +649,17 @@ Proof.
         destruct (ccheck_block N P K G ift) as [G1|] eqn:Hb1; [|discriminate].
         destruct (ccheck_block N P K G iff) as [G2|] eqn:Hb2; [|discriminate]. inversion Hc; subst.
         estep. pstep. apply after_phis_c. destruct x.
-        -- eapply mokP_weaken; [eapply IHb; eauto; split; auto|].
-           intros [o m] Ho. unfold cosat in *. cbn [fst] in *. destruct o; auto.
+        -- eapply mokP_weaken_eq; [eapply IHb; eauto; split; auto|].
+           intros [o m] Eo Ho. unfold cosat in *. cbn [fst] in *. destruct o as [s' D'|rv]; auto.
+           destruct (blk_ret ift) eqn:R1.
+           { exfalso. exact (blk_always_returns _ _ _ _ _ _ _ _ _ _ _ R1 Eo). }
+           destruct (blk_ret iff); [exact Ho|].
            eapply cst_sub; [apply (proj1 (cmerge_sub G1 G2)) | exact Ho].
-        -- eapply mokP_weaken; [eapply IHb; eauto; split; auto|].
-           intros [o m] Ho. unfold cosat in *. cbn [fst] in *. destruct o; auto.
+        -- eapply mokP_weaken_eq; [eapply IHb; eauto; split; auto|].
+           intros [o m] Eo Ho. unfold cosat in *. cbn [fst] in *. destruct o as [s' D'|rv]; auto.
+           destruct (blk_ret ift) eqn:R1; [exact Ho|].
+           destruct (blk_ret iff) eqn:R2.
+           { exfalso. exact (blk_always_returns _ _ _ _ _ _ _ _ _ _ _ R2 Eo). }
            eapply cst_sub; [apply (proj2 (cmerge_sub G1 G2)) | exact Ho].
       * (* while *) rewrite ccheck_while_eq in Hc. cbn zeta in Hc.
         destruct (ccheck_expr N P K (env_remove_all G (map fst ph)) c) eqn:He; [|discriminate].
